@@ -341,6 +341,12 @@ var preludeGroups = []preludeGroup{
 (assert (forall ((h (Array Bytes Bool)) (k Bytes) (v Bool) (j (_ BitVec 64))) (! (=> (not (attPrefix k)) (= (rangeKeyAtt (store h k v) j) (rangeKeyAtt h j))) :pattern ((rangeKeyAtt (store h k v) j)))))
 (assert (forall ((h (Array Bytes Bool)) (j (_ BitVec 64))) (! (and (attPrefix (rangeKeyAtt h j)) (canon (rangeKeyAtt h j))) :pattern ((rangeKeyAtt h j)))))
 `},
+	{[]string{"trig32"}, `(declare-fun trig32 ((_ BitVec 32)) Bool)
+(assert (forall ((x (_ BitVec 32))) (! (trig32 x) :pattern ((trig32 x)))))
+`},
+	{[]string{"trig64"}, `(declare-fun trig64 ((_ BitVec 64)) Bool)
+(assert (forall ((x (_ BitVec 64))) (! (trig64 x) :pattern ((trig64 x)))))
+`},
 	{[]string{"errText"}, `(declare-fun errText (Int) Bytes)
 `},
 }
@@ -440,6 +446,11 @@ func buildPrelude(used map[string]bool) string {
 			}
 		}
 	}
+	for n := range specFuns {
+		if used[n] {
+			used["canon"] = true
+		}
+	}
 	var types []string
 	for t := range protoTypes {
 		for s := range used {
@@ -477,6 +488,37 @@ func buildPrelude(used map[string]bool) string {
 	}
 	for _, t := range types {
 		sb.WriteString(codecPrelude(t))
+	}
+	// opaque spec functions returning byte strings: canonical, of their declared length
+	var sfn []string
+	for n := range specFuns {
+		if used[n] {
+			sfn = append(sfn, n)
+		}
+	}
+	sort.Strings(sfn)
+	for _, n := range sfn {
+		sf := specFuns[n]
+		func() {
+			defer func() { recover() }()
+			rs, ln := retSort(sf.Ret)
+			var ps, vs, as []string
+			for i, p := range sf.Params {
+				s, _ := retSort(p[1])
+				ps = append(ps, s)
+				vs = append(vs, fmt.Sprintf("(a%d %s)", i, s))
+				as = append(as, fmt.Sprintf("a%d", i))
+			}
+			fmt.Fprintf(&sb, "(declare-fun %s (%s) %s)\n", n, strings.Join(ps, " "), rs)
+			if rs == SBytes {
+				app := fmt.Sprintf("(%s %s)", n, strings.Join(as, " "))
+				lenFact := fmt.Sprintf("(bvule (blen %s) #x0000010000000000)", app)
+				if ln > 0 {
+					lenFact = fmt.Sprintf("(= (blen %s) #x%016x)", app, ln)
+				}
+				fmt.Fprintf(&sb, "(assert (forall (%s) (! (and (canon %s) %s) :pattern (%s))))\n", strings.Join(vs, " "), app, lenFact, app)
+			}
+		}()
 	}
 	return sb.String()
 }
@@ -519,6 +561,10 @@ func canonFacts(ts []*Term) []*Term {
 			return
 		}
 		seen[t] = true
+		if t.Op == "forall" || t.Op == "exists" {
+			// terms under a binder may mention its variable: no ground fact can be stated about them
+			return
+		}
 		if t.Op == "mkb" {
 			if n, ok := t.Args[1].U64(); ok {
 				a := t.Args[0]
@@ -655,12 +701,21 @@ func structured(t *Term) bool {
 }
 
 func init() {
+	blenOfApp = func(name string) int { return fixedLenApps[name] }
 	rebuildApp = func(name string, args []*Term) *Term {
 		switch name {
 		case "snap":
 			return snapArr(args[0], args[1], args[2])
 		case "cat":
 			return Cat(args[0], args[1])
+		case "bigOfBytes":
+			// big.Int.SetBytes of a byte string whose length has become a known constant <= 32
+			if n, ok := Blen(args[0]).U64(); ok && n <= 32 {
+				if n == 0 {
+					return BV(bigW, 0)
+				}
+				return ZeroExt(bigW, beRead(args[0], BV(64, 0), int(n)))
+			}
 		}
 		return nil
 	}
@@ -722,6 +777,15 @@ func propagate(assumes []*Term, goal *Term) ([]*Term, *Term) {
 					} else {
 						k, v = x, y
 					}
+				} else if x.Op == "var" && !occurs(x, y) {
+					k, v = x, y
+				} else if y.Op == "var" && !occurs(y, x) {
+					k, v = y, x
+				} else if x.Op == "zero_extend" && y.Op != "zero_extend" && !occurs(x, y) {
+					// oriented rewrite: a widening of a sum equals the sum of the widening (no-overflow fact)
+					k, v = x, y
+				} else if y.Op == "zero_extend" && x.Op != "zero_extend" && !occurs(y, x) {
+					k, v = y, x
 				} else {
 					k, v = a, TTrue
 				}
